@@ -464,6 +464,17 @@ pub fn c02(rec: &mut Rec, rng: &mut Rng, thorough: bool) {
         }
         sized.push((format!("many-requests-{}", count), p));
     }
+    // the same recognised field twice in one request, every ordered pair of a few values: what is delivered follows the
+    // documented rule for that field (last acceptable occurrence / any occurrence), never the mere order of the lines
+    for (i, name) in gen::REC_NAMES.iter().enumerate() {
+        let vals: Vec<&str> = gen::values_for(i).iter().take(4).cloned().collect();
+        for a in &vals {
+            for b in &vals {
+                let stream = format!("PUT /pair HTTP/1.1\r\n{}: {}\r\n{}: {}\r\nContent-Length: 2\r\n\r\nab", name, a, name.to_ascii_lowercase(), b).into_bytes();
+                sized.push((format!("pair-{}", name), stream));
+            }
+        }
+    }
     for (name, stream) in sized {
         rec.case(&name);
         rec.nontrivial();
@@ -877,6 +888,38 @@ pub fn c04(rec: &mut Rec, rng: &mut Rng, thorough: bool) {
             let ok = errs.is_empty() && del.len() == 2 && (n == 0 || del[0].text_nofiles.contains(&format!("body={} ", hx(&body))));
             if !ok {
                 rec.oracle_fail("C04", &format!("L={} n={} followed by a pipelined request: errors {:?}, {} requests delivered", l, n, errs, del.len()), &d.log);
+            }
+        }
+    }
+    // limits ABOVE the documented default: a body between 51200 and L bytes really transmitted, in reads of various sizes —
+    // the only limit is the configured one, all the way through the body
+    for &l in &[60000usize, 200000] {
+        for &n in &[51201usize, 55000, 60000] {
+            for &chunk in &[300usize, 1024, 4000] {
+                if n > l {
+                    continue;
+                }
+                rec.case("large-body-under-raised-limit");
+                rec.nontrivial();
+                let mut d = ConnDriver::new(rec, l);
+                let body = gen::body_bytes(rng, n);
+                let mut stream = format!("PUT /large HTTP/1.1\r\nContent-Length: {}\r\n\r\n", n).into_bytes();
+                stream.extend_from_slice(&body);
+                let mut errs = vec![];
+                for ch in stream.chunks(chunk) {
+                    for r in d.recv(rec, ch, 0) {
+                        if r.starts_with("parse(") {
+                            errs.push(r);
+                        }
+                    }
+                    if !errs.is_empty() {
+                        break;
+                    }
+                }
+                let del = d.popall(rec);
+                if !errs.is_empty() || del.len() != 1 {
+                    rec.oracle_fail("C04", &format!("L={} n={} in reads of {} bytes: errors {:?}, {} requests delivered", l, n, chunk, errs, del.len()), &[format!("conn new {}", l), format!("# PUT with a body of {} bytes in reads of {}", n, chunk)]);
+                }
             }
         }
     }
